@@ -56,6 +56,7 @@ type Config struct {
 	// translator validation: collect "trace + failed assertion ids" per path,
 	// and never end a path at a failing assertion
 	CollectObs       bool
+	StopOnObs        string // with CollectObs: stop exploring once a run produced exactly this observation
 	AllFailuresKnown bool
 	// OwnPrefixes: assertion-id prefixes this check is responsible for; other
 	// failures are recorded as foreign (they belong to another property's
@@ -263,6 +264,9 @@ func (ex *Explorer) merge(r *runState) {
 		}
 		if !dup {
 			st.Obs = append(st.Obs, o)
+		}
+		if ex.cfg.StopOnObs != "" && o == ex.cfg.StopOnObs {
+			ex.stop = true
 		}
 	}
 	if r.end == "completed" && len(st.Samples) < ex.cfg.Samples && r.sample != nil {
